@@ -204,6 +204,10 @@ func checkLoopProgress(w *World, fn *ssa.Function) []loopFinding {
 					continue
 				}
 				if e.State.Resolve(nv) != ssa.Value(p) && nv != ssa.Value(p) {
+					// p + k - k is not progress either
+					if base, off, lin := linearOf(e.State, nv, p); lin && base == ssa.Value(p) && off == 0 {
+						continue
+					}
 					changed = true
 				}
 			}
@@ -232,4 +236,39 @@ func enumPathsFromHeader(fn *ssa.Function, h *ssa.BasicBlock, startAfter ssa.Ins
 	}
 	// header has no phis at all: cannot happen for loops with exit phis
 	return true
+}
+
+// linearOf resolves v (through the path's phi selections) to base + constant.
+func linearOf(st *pathState, v ssa.Value, stop ssa.Value) (base ssa.Value, off int64, ok bool) {
+	for i := 0; i < 32; i++ {
+		if v == stop {
+			return v, off, true
+		}
+		if ph, isPhi := v.(*ssa.Phi); isPhi {
+			sel, has := st.PhiSel[ph]
+			if !has || sel == v {
+				return v, off, true
+			}
+			v = sel
+			continue
+		}
+		b, isB := v.(*ssa.BinOp)
+		if !isB {
+			return v, off, true
+		}
+		c, isC := constIntVal(b.Y)
+		if !isC {
+			return v, off, true
+		}
+		switch b.Op.String() {
+		case "+":
+			off += c
+		case "-":
+			off -= c
+		default:
+			return v, off, true
+		}
+		v = b.X
+	}
+	return v, off, false
 }
